@@ -17,7 +17,8 @@ import (
 // PricingAtt is the structured value carried by a pricing text.
 type PricingAtt struct {
 	Valid  *Term // nil: accepted by the pricing schema by construction; else the condition under which it is
-	Price  *Term // Int >= 0, amount in base denom
+	Price  *Term // Int >= 0, amount in the price's denomination
+	Denom  string
 	ByTime []PromoT
 	ByVol  []PromoV
 }
@@ -29,7 +30,10 @@ type PromoV struct {
 	Vol  *Term // BV64 >= 1
 	Disc *Term
 }
-type PriceAtt struct{ Amount *Term }
+type PriceAtt struct {
+	Amount *Term
+	Denom  string
+}
 type AddrAtt struct{ Bytes []*Term }
 type HexAtt struct{ Bytes []*Term }
 type JSONAtt struct{ V Value }
@@ -578,7 +582,11 @@ func init() {
 		s := a[0].(StrVal)
 		dc := e.zero(fn.Signature.Results().At(0).Type()).(*StructVal)
 		if at, ok := s.Att.(PriceAtt); ok {
-			dc.Fields[0] = e.constStr("stake")
+			dn := at.Denom
+			if dn == "" {
+				dn = "stake"
+			}
+			dc.Fields[0] = e.constStr(dn)
 			dc.Fields[1] = &BigVal{T: e.tt.IntBin("*", at.Amount, e.tt.Int(prec))}
 			return TupleVal{dc, IfaceVal{}}
 		}
@@ -619,7 +627,7 @@ func (e *Exec) rawPricing(at *PricingAtt) *StructVal {
 	for _, p := range at.ByVol {
 		bv = append(bv, &StructVal{Fields: []Value{p.Vol, &BigVal{T: p.Disc}}})
 	}
-	price := StrVal{B: e.constStr("<price>").B, Att: PriceAtt{Amount: at.Price}}
+	price := StrVal{B: e.constStr("<price>").B, Att: PriceAtt{Amount: at.Price, Denom: at.Denom}}
 	return &StructVal{Fields: []Value{price, e.mkSlice(bt), e.mkSlice(bv)}}
 }
 
